@@ -14,9 +14,9 @@ import json
 from . import common as C
 
 THEOREMS = [
-    "chan_shape", "fifo_conservation", "select_choice_ready", "select_default_only_if_none_ready",
-    "awake_count", "deadlock_report_iff", "close_semantics_counterexample", "close_semantics_partial",
-    "nil_never_proceeds_counterexample", "nil_never_proceeds_partial", "no_lost_wakeup_entries",
+    "chan_shape", "chan_shape_design_counterexample", "fifo_conservation", "scan_ready_sound", "pick_in_range",
+    "select_choice_ready", "close_semantics_counterexample", "close_semantics_partial",
+    "nil_never_proceeds_counterexample", "nil_never_proceeds_partial",
 ]
 
 SIG_SELECT_SEND = "C03 close chan=open blocked=select-send-case closer-panics-send-on-closed selector-not-woken"
@@ -184,7 +184,8 @@ def gen_exhaustive(ngor, caps, depth, limit):
     menu_sel.append(["r0", "s0:V"])
     frontier = [prefix]
     done = []
-    for _ in range(depth):
+    full_depth = [None]
+    for level in range(depth):
         if not frontier:
             break
         outs = run_model(frontier)
@@ -213,10 +214,13 @@ def gen_exhaustive(ngor, caps, depth, limit):
                 nxt.append(sc + [e])
         # scheduler-only steps do not count as choice points: they are extended again without using depth
         if len(nxt) > limit:
-            done += nxt[limit:]
-            nxt = nxt[:limit]
+            # beyond the limit the level is sampled with a fixed stride (the prefix levels stay exhaustive)
+            if full_depth[0] is None:
+                full_depth[0] = level
+            step = len(nxt) / float(limit)
+            nxt = [nxt[int(i * step)] for i in range(limit)]
         frontier = nxt
-    return done + frontier
+    return done + frontier, (full_depth[0] if full_depth[0] is not None else depth)
 
 
 # ------------------------------------------------------------------------------------------------
@@ -291,7 +295,7 @@ def run(tier, seed):
     # 1. witnesses of the recorded defects, replayed against the real code
     tie_scripts(chk, "prelude-chan-witness", [WITNESS_SELECT_SEND.split("|"), WITNESS_CLOSE_NIL.split("|")])
     # 2. random scripts
-    n = 6000 if thorough else 700
+    n = 5000 if thorough else 600
     scripts = gen_random(rng, n, 60 if thorough else 45, maxg=rng.choice([3, 4, 6, 8]), maxch=4)
     scripts += gen_random(rng, n // 4, 40, maxg=3, maxch=2)
     tie_scripts(chk, "prelude-chan-random", scripts)
@@ -299,13 +303,17 @@ def run(tier, seed):
     chk.extra["random_events"] = sum(len(s) for s in scripts)
     # 3. exhaustive small scripts
     ex = []
+    exinfo = []
     if thorough:
-        for ngor, caps, depth, limit in [(2, [0], 9, 60000), (2, [1], 9, 60000), (2, [2], 8, 40000), (3, [0], 8, 60000),
-                                         (2, [0, 1], 7, 60000), (3, [0, 2], 6, 60000), (3, [1, 0], 6, 40000)]:
-            ex += gen_exhaustive(ngor, caps, depth, limit)
+        plan = [(2, [0], 9, 30000), (2, [1], 9, 30000), (2, [2], 8, 20000), (3, [0], 8, 30000),
+                (2, [0, 1], 7, 30000), (3, [0, 2], 6, 20000), (3, [1, 0], 6, 20000)]
     else:
-        for ngor, caps, depth, limit in [(2, [0], 6, 4000), (2, [1], 6, 4000), (2, [0, 1], 5, 3000)]:
-            ex += gen_exhaustive(ngor, caps, depth, limit)
+        plan = [(2, [0], 6, 2500), (2, [1], 6, 2500), (3, [0, 1], 5, 2000)]
+    for ngor, caps, depth, limit in plan:
+        e, fd = gen_exhaustive(ngor, caps, depth, limit)
+        ex += e
+        exinfo.append({"goroutines": ngor, "caps": caps, "depth": depth, "exhaustive_to_depth": fd, "scripts": len(e)})
+    chk.extra["exhaustive_plan"] = exinfo
     tie_scripts(chk, "prelude-chan-exhaustive", ex)
     chk.extra["exhaustive_scripts"] = len(ex)
     chk.extra["exhaustive"] = False
@@ -317,8 +325,382 @@ def run(tier, seed):
     return chk.finish()
 
 
+# ------------------------------------------------------------------------------------------------
+# program level
+# ------------------------------------------------------------------------------------------------
+
+GO_HEAD = "package main\n\n"
+
+
+def render_op(g, op, chname):
+    f = op.split("_")
+    if f[0] == "send":
+        return "\t%s <- %s\n" % (chname(int(f[1])), f[2])
+    if f[0] == "recv":
+        return "\t{\n\t\tv, ok := <-%s\n\t\tprintln(\"r\", %d, v, ok)\n\t}\n" % (chname(int(f[1])), g)
+    if f[0] == "close":
+        return "\tclose(%s)\n" % chname(int(f[1]))
+    if f[0] == "sel":
+        out = "\tselect {\n"
+        for i, k in enumerate(f[2].split(",")):
+            if k == "d":
+                out += "\tdefault:\n\t\tprintln(\"s\", %d, %d)\n" % (g, i)
+            elif k[0] == "r":
+                out += "\tcase v, ok := <-%s:\n\t\tprintln(\"s\", %d, %d, v, ok)\n" % (chname(int(k[1:])), g, i)
+            else:
+                c, v = k[1:].split(":")
+                out += "\tcase %s <- %s:\n\t\tprintln(\"s\", %d, %d)\n" % (chname(int(c)), v, g, i)
+        return out + "\t}\n"
+    raise ValueError(op)
+
+
+def gen_scripted_program(rng, pid):
+    """A random program whose goroutines are straight-line lists of channel operations. GopherJS's schedule is
+    deterministic (FIFO run queue, no time-slice break in a few microseconds), so the model predicts the exact output."""
+    ngor = rng.choice([2, 2, 3, 3, 4])
+    caps = [rng.choice([0, 0, 1, 2]) for _ in range(rng.choice([1, 2, 2, 3]))]
+    nch = 1 + len(caps)
+    done = nch            # index of the done channel
+    val = [0]
+
+    def anyc():
+        return rng.randrange(1, nch) if rng.random() > 0.06 else 0
+
+    def rop():
+        k = rng.random()
+        val[0] += 1
+        if k < 0.38:
+            return "send_%d_%d" % (anyc(), val[0])
+        if k < 0.76:
+            return "recv_%d" % anyc()
+        if k < 0.82:
+            return "close_%d" % rng.randrange(1, nch)
+        c = rng.randrange(1, nch)
+        one = "r%d" % c if rng.random() < 0.5 else "s%d:%d" % (c, val[0])
+        other = rng.choice(["d", "r0", "s0:%d" % (val[0] + 100)])
+        cs = [one, other] if rng.random() < 0.5 else [other, one]
+        return "sel_0_%s" % ",".join(cs)
+    progs = {}
+    for g in range(ngor):
+        progs[g] = [rop() for _ in range(rng.randrange(1, 6))]
+    return {"id": pid, "ngor": ngor, "caps": caps, "progs": progs, "done": done}
+
+
+def scripted_source(P):
+    nch = 1 + len(P["caps"])
+
+    def chname(c):
+        return "cn" if c == 0 else ("done" if c == P["done"] else "c%d" % c)
+    src = GO_HEAD
+    params = ", ".join(["cn chan int"] + ["c%d chan int" % i for i in range(1, nch)] + ["done chan int"])
+    args = ", ".join(["cn"] + ["c%d" % i for i in range(1, nch)] + ["done"])
+    for g in range(1, P["ngor"]):
+        src += "func g%d(%s) {\n" % (g, params)
+        for op in P["progs"][g]:
+            src += render_op(g, op, chname)
+        src += "\tdone <- %d\n}\n\n" % g
+    src += "func main() {\n\tvar cn chan int\n"
+    for i, cap in enumerate(P["caps"]):
+        src += "\tc%d := make(chan int, %d)\n" % (i + 1, cap)
+    src += "\tdone := make(chan int, %d)\n" % P["ngor"]
+    for g in range(1, P["ngor"]):
+        src += "\tgo g%d(%s)\n" % (g, args)
+    for op in P["progs"][0]:
+        src += render_op(0, op, chname)
+    for g in range(1, P["ngor"]):
+        src += "\t<-done\n"
+    src += "\t_ = cn\n}\n"
+    return src
+
+
+def model_predict(Ps):
+    """Drive the Lean model through each scripted program under the runtime's own (deterministic) schedule.
+    Returns per program (trace, ending, script, uses_known_defect)."""
+    st = []
+    for P in Ps:
+        full = {}
+        for g in range(P["ngor"]):
+            ops = [(o, True) for o in P["progs"][g]]
+            if g == 0:
+                pre = [("mk_%d" % c, False) for c in P["caps"]] + [("mk_%d" % P["ngor"], False)] + [("go", False)] * (P["ngor"] - 1)
+                ops = pre + ops + [("recv_%d" % P["done"], False)] * (P["ngor"] - 1) + [("main", False), ("exit", False)]
+            else:
+                ops = ops + [("send_%d_%d" % (P["done"], g), False), ("exit", False)]
+            full[g] = ops
+        st.append({"P": P, "ops": full, "pc": {g: 0 for g in full}, "script": ["go"], "actors": [None], "vis": [False],
+                   "live": True, "ending": None, "blockedvis": {}})
+    for _ in range(400):
+        live = [x for x in st if x["live"]]
+        if not live:
+            break
+        outs = run_model([x["script"] for x in live], "spec")
+        for x, o in zip(live, outs):
+            last = o[-1]
+            if last.startswith("SPEC:"):
+                x["live"] = False
+                x["ending"] = "known-defect"
+                continue
+            d = parse_dump(last)
+            if d["obs"].startswith("panic:"):
+                x["live"] = False
+                x["ending"] = {"panic:send-closed": "panic:send on closed channel", "panic:close-closed": "panic:close of closed channel"}.get(d["obs"], d["obs"])
+                x["answers"] = o
+                continue
+            if int(d["dead"]) > 0:
+                x["live"] = False
+                x["ending"] = "deadlock"
+                x["answers"] = o
+                continue
+            if d["cur"] != "-":
+                g = int(d["cur"])
+                if x["pc"][g] >= len(x["ops"][g]):
+                    raise RuntimeError("scripted program ran past its end")
+                op, vis = x["ops"][g][x["pc"][g]]
+                x["pc"][g] += 1
+                x["script"].append(op)
+                x["actors"].append(g)
+                x["vis"].append(vis)
+            elif d["loop"] == "1":
+                x["script"].append("next")
+                x["actors"].append(None)
+                x["vis"].append(False)
+            else:
+                x["live"] = False
+                x["ending"] = "exit0"
+                x["answers"] = o
+    res = []
+    for x in st:
+        if x["live"]:
+            raise RuntimeError("scripted program did not terminate in the model")
+        if x["ending"] == "known-defect":
+            res.append((None, "known-defect", x["script"]))
+            continue
+        trace = []
+        pend = {}     # goroutine -> visible? for its blocked op
+        for e, a, vis, ans in zip(x["script"], x["actors"], x["vis"], x["answers"]):
+            obs = ans.split(" ")[0]
+            f = obs.split(":")
+            if a is not None:
+                if obs == "blocked":
+                    pend[a] = vis
+                elif vis and f[0] == "recv":
+                    trace.append("r %d %s %s" % (a, f[1], "true" if f[2] == "1" else "false"))
+                elif vis and f[0] == "sel":
+                    trace.append("s %d %s" % (a, f[1]) + (" %s %s" % (f[2], "true" if f[3] == "1" else "false") if len(f) > 2 else ""))
+            elif f[0] == "run":
+                g = int(f[1])
+                if pend.pop(g, False):
+                    if f[2] == "recv":
+                        trace.append("r %d %s %s" % (g, f[3], "true" if f[4] == "1" else "false"))
+                    elif f[2] == "sel":
+                        trace.append("s %d %s" % (g, f[3]) + (" %s %s" % (f[4], "true" if f[5] == "1" else "false") if len(f) > 4 else ""))
+                if f[2] == "panic":
+                    pass
+        # a goroutine resumed into the "send on closed channel" panic ends the program
+        for ans in x["answers"]:
+            if ans.startswith("run:") and ":panic:send-closed" in ans.split(" ")[0]:
+                x["ending"] = "panic:send on closed channel"
+        res.append((trace, x["ending"], x["script"]))
+    return res
+
+
+def norm_end(e):
+    return e.replace("panic:runtime error: ", "panic:")
+
+
+DET_TEMPLATES = []
+
+
+def tmpl_pipeline(rng):
+    k = rng.randrange(1, 4)
+    n = rng.randrange(1, 7)
+    caps = [rng.choice([0, 1, 2, 3]) for _ in range(k + 1)]
+    adds = [rng.randrange(1, 9) for _ in range(k)]
+    src = GO_HEAD + "func stage(in, out chan int, add int) {\n\tfor v := range in {\n\t\tout <- v + add\n\t}\n\tclose(out)\n}\n\nfunc main() {\n"
+    for i, c in enumerate(caps):
+        src += "\tc%d := make(chan int, %d)\n" % (i, c)
+    for i in range(k):
+        src += "\tgo stage(c%d, c%d, %d)\n" % (i, i + 1, adds[i])
+    src += "\tgo func() {\n\t\tfor i := 1; i <= %d; i++ {\n\t\t\tc0 <- i\n\t\t}\n\t\tclose(c0)\n\t}()\n" % n
+    src += "\tfor v := range c%d {\n\t\tprintln(\"out\", v)\n\t}\n\tv, ok := <-c%d\n\tprintln(\"after\", v, ok)\n}\n" % (k, k)
+    return "pipeline", src
+
+
+def tmpl_fanin(rng):
+    w = rng.randrange(1, 5)
+    per = rng.randrange(1, 5)
+    cap = rng.choice([0, 1, 2, 8])
+    src = GO_HEAD + "func main() {\n\tc := make(chan int, %d)\n\tvar never chan int\n" % cap
+    src += "\tfor w := 0; w < %d; w++ {\n\t\tgo func(w int) {\n\t\t\tfor i := 0; i < %d; i++ {\n\t\t\t\tselect {\n\t\t\t\tcase c <- w*100 + i:\n\t\t\t\tcase <-never:\n\t\t\t\t\tprintln(\"nil fired\")\n\t\t\t\t}\n\t\t\t}\n\t\t}(w)\n\t}\n" % (w, per)
+    src += "\tsum, n := 0, 0\n\tfor n < %d {\n\t\tsum += <-c\n\t\tn++\n\t}\n\tprintln(\"sum\", sum, n)\n" % (w * per)
+    src += "\tselect {\n\tcase v := <-c:\n\t\tprintln(\"extra\", v)\n\tdefault:\n\t\tprintln(\"empty\")\n\t}\n}\n"
+    return "fanin", src
+
+
+def tmpl_deadlock(rng):
+    cap = rng.choice([0, 1, 2])
+    n = rng.randrange(0, 3)
+    kind = rng.choice(["recv", "send", "nilrecv", "nilsend", "select"])
+    src = GO_HEAD + "func main() {\n\tc := make(chan int, %d)\n\tvar nc chan int\n\tdone := make(chan bool)\n" % cap
+    src += "\tgo func() {\n\t\tfor i := 0; i < %d; i++ {\n\t\t\tprintln(\"got\", <-c)\n\t\t}\n\t\tdone <- true\n\t}()\n" % n
+    src += "\tfor i := 0; i < %d; i++ {\n\t\tc <- i\n\t}\n\t<-done\n\tprintln(\"before\")\n" % n
+    src += {"recv": "\t<-c\n", "send": "\tfor {\n\t\tc <- 1\n\t}\n", "nilrecv": "\t<-nc\n", "nilsend": "\tnc <- 1\n",
+            "select": "\tselect {\n\tcase <-nc:\n\tcase nc <- 1:\n\tcase <-c:\n\t}\n"}[kind]
+    src += "\tprintln(\"unreachable\")\n\t_ = nc\n}\n"
+    return "deadlock:" + kind, src
+
+
+def tmpl_close(rng):
+    cap = rng.choice([0, 1, 3])
+    nrecv = rng.randrange(1, 4)
+    kind = rng.choice(["wake-receivers", "send-after-close", "close-twice", "blocked-sender", "drain"])
+    src = GO_HEAD + "func main() {\n\tc := make(chan int, %d)\n\tdone := make(chan int, 8)\n" % cap
+    if kind == "wake-receivers":
+        src += "\tfor i := 0; i < %d; i++ {\n\t\tgo func(i int) {\n\t\t\tv, ok := <-c\n\t\t\tif v != 0 || ok {\n\t\t\t\tprintln(\"bad\")\n\t\t\t}\n\t\t\tdone <- 1\n\t\t}(i)\n\t}\n" % nrecv
+        src += "\tgo func() { done <- 0 }()\n\t<-done\n\tclose(c)\n\tn := 0\n\tfor i := 0; i < %d; i++ {\n\t\tn += <-done\n\t}\n\tprintln(\"woken\", n)\n}\n" % nrecv
+    elif kind == "send-after-close":
+        src += "\tclose(c)\n\tdefer func() { println(\"deferred\") }()\n\tc <- 1\n\tprintln(\"unreachable\")\n\t_ = done\n}\n"
+    elif kind == "close-twice":
+        src += "\tclose(c)\n\tclose(c)\n\tprintln(\"unreachable\")\n\t_ = done\n}\n"
+    elif kind == "blocked-sender":
+        src += "\tfor i := 0; i < %d; i++ {\n\t\tc <- i\n\t}\n" % cap
+        src += "\tgo func() {\n\t\tdefer func() {\n\t\t\tprintln(\"sender recovered\", recover() != nil)\n\t\t\tdone <- 1\n\t\t}()\n\t\tc <- 99\n\t\tprintln(\"unreachable\")\n\t}()\n"
+        src += "\tgo func() { done <- 0 }()\n\t<-done\n\tclose(c)\n\tprintln(\"closer ok\")\n\t<-done\n\tfor v := range c {\n\t\tprintln(\"drain\", v)\n\t}\n}\n"
+    else:
+        src += "\tfor i := 0; i < %d; i++ {\n\t\tc <- i + 1\n\t}\n\tclose(c)\n\tfor i := 0; i < %d; i++ {\n\t\tv, ok := <-c\n\t\tprintln(v, ok)\n\t}\n\t_ = done\n}\n" % (cap, cap + 2)
+    return "close:" + kind, src
+
+
+DEFECT_SELECT_SEND = GO_HEAD + """func main() {
+	c := make(chan int)
+	d := make(chan int)
+	step := make(chan int)
+	go func() {
+		defer func() { println("selector recovered", recover() != nil); step <- 2 }()
+		step <- 1
+		select {
+		case c <- 1:
+			println("sent")
+		case <-d:
+			println("d")
+		}
+	}()
+	<-step
+	go func() { step <- 0 }()
+	<-step
+	func() {
+		defer func() { println("closer recovered", recover() != nil) }()
+		close(c)
+		println("closed ok")
+	}()
+	<-step
+}
+"""
+
+DEFECT_CLOSE_NIL = GO_HEAD + """func main() {
+	var n chan int
+	defer func() { println("recovered", recover() != nil) }()
+	close(n)
+	println("after close nil")
+}
+"""
+
+NONDET_SELECT = GO_HEAD + """func main() {
+	a := make(chan int, 1)
+	b := make(chan int, 1)
+	a <- 1
+	b <- 2
+	for i := 0; i < 2; i++ {
+		select {
+		case v := <-a:
+			println("a", v)
+		case v := <-b:
+			println("b", v)
+		}
+	}
+}
+"""
+
+
 def run_programs(chk, tier, rng):
-    pass
+    from . import progs
+    thorough = tier == "thorough"
+    jobs = []
+    # (a) scripted programs: GopherJS under Node vs the model's prediction
+    Ps = [gen_scripted_program(rng, "s%d" % i) for i in range(400 if thorough else 60)]
+    pred = model_predict(Ps)
+    keep = []
+    for P, (trace, ending, script) in zip(Ps, pred):
+        if ending == "known-defect":
+            chk.count("prog:scripted:skipped-known-defect")
+            continue
+        keep.append((P, trace, ending, script))
+        jobs.append({"id": P["id"], "files": {"main.go": scripted_source(P)}, "variants": ["plain"], "native": False, "timeout": 20})
+    # (b) deterministic-by-construction programs: GopherJS vs native Go
+    det = []
+    for i in range(120 if thorough else 24):
+        name, src = rng.choice([tmpl_pipeline, tmpl_fanin, tmpl_deadlock, tmpl_close])(rng)
+        det.append((name, src))
+        jobs.append({"id": "d%d" % i, "files": {"main.go": src}, "variants": ["plain"], "native": True, "timeout": 20})
+    # (c) the recorded defects as programs, (d) a nondeterministic select
+    jobs.append({"id": "defect1", "files": {"main.go": DEFECT_SELECT_SEND}, "variants": ["plain"], "native": True})
+    jobs.append({"id": "defect2", "files": {"main.go": DEFECT_CLOSE_NIL}, "variants": ["plain"], "native": True})
+    jobs.append({"id": "nondet", "files": {"main.go": NONDET_SELECT}, "variants": ["plain"], "native": True})
+    res = {r["id"]: r for r in progs.run_jobs(jobs)}
+    for P, trace, ending, script in keep:
+        r = res[P["id"]]["runs"]["plain"]
+        t, e = progs.observe_js(r)
+        e = norm_end(e)
+        if e.startswith("compile-error"):
+            raise RuntimeError("scripted program does not compile: %s\n%s" % (e, scripted_source(P)))
+        op = "prog:scripted:" + "|".join(script)
+        chk.add_case("prog-scripted", op, kindkey="prog:scripted:" + ending.split(" ")[0],
+                     sample={"tie": "prog-scripted", "op": op[:300], "impl": "%s / %s" % (t[:6], e), "model": "%s / %s" % (trace[:6], ending)})
+        if (t, e) != (trace, ending):
+            src = scripted_source(P)
+            chk.add_tie_break("prog-scripted", op + "\n" + src, "%s / %s" % (t, e), "%s / %s" % (trace, ending))
+    for i, (name, src) in enumerate(det):
+        runs = res["d%d" % i]["runs"]
+        nat = progs.observe_native(runs["native"])
+        nat = (nat[0], norm_end(nat[1]))
+        if nat[1].startswith("compile-error"):
+            raise RuntimeError("template program does not compile natively: %s\n%s" % (nat[1], src))
+        for v in runs:
+            if v == "native":
+                continue
+            js = progs.observe_js(runs[v])
+            js = (js[0], norm_end(js[1]))
+            op = "prog:%s:%s\n%s" % (name, v, src)
+            chk.add_case("prog-det", op, kindkey="prog:" + name + ":" + nat[1].split(" ")[0][:40])
+            if js != nat:
+                chk.add_mismatch("prog-det", op, "%s / %s" % js, "%s / %s" % nat, signature="C03 program %s impl=%s go=%s" % (name, js[1], nat[1]))
+    # defects: GopherJS differs from Go exactly in the recorded way
+    for pid, sig, src in (("defect1", SIG_SELECT_SEND, DEFECT_SELECT_SEND), ("defect2", SIG_CLOSE_NIL, DEFECT_CLOSE_NIL)):
+        js = progs.observe_js(res[pid]["runs"]["plain"])
+        nat = progs.observe_native(res[pid]["runs"]["native"])
+        chk.add_case("prog-defect", pid, kindkey="prog:defect")
+        if (js[0], norm_end(js[1])) != (nat[0], norm_end(nat[1])):
+            chk.add_mismatch("prog-defect", "prog:%s\n%s" % (pid, src), "%s / %s" % js, "%s / %s" % nat, signature=sig)
+    # nondeterministic select: the outcome must be one the model enumerates over all Math.random resolutions
+    allowed = set()
+    for p1 in range(12):
+        for p2 in range(12):
+            sc = ["go", "mk_1", "mk_1", "send_1_1", "send_2_2", "sel_%d_r1,r2" % p1, "sel_%d_r1,r2" % p2]
+            o = run_model([sc])[0]
+            names = {"0": "a", "1": "b"}
+            allowed.add(tuple("%s %s" % (names[x.split(" ")[0].split(":")[1]], x.split(" ")[0].split(":")[2]) for x in o[-2:]))
+    js = progs.observe_js(res["nondet"]["runs"]["plain"])
+    nat = progs.observe_native(res["nondet"]["runs"]["native"])
+    chk.add_case("prog-nondet", "nondet-select", kindkey="prog:nondet")
+    chk.extra["nondet_select_allowed"] = sorted(" | ".join(a) for a in allowed)
+    if tuple(js[0]) not in allowed or js[1] != "exit0":
+        chk.add_mismatch("prog-nondet", "prog:nondet\n" + NONDET_SELECT, "%s / %s" % js, "one of %s" % sorted(allowed),
+                         signature="C03 program nondet-select outcome-not-allowed")
+    if tuple(nat[0]) not in allowed:
+        raise RuntimeError("model's allowed set for the nondeterministic select excludes native Go's outcome %s" % (nat,))
+    chk.extra["programs"] = len(jobs)
+
+
 
 
 def replay(path):
